@@ -14,6 +14,11 @@ CLAIMED = {
         note="Bounded: MC W<=3,N<=3 quick / W<=4,N<=4 thorough; replayed graphs up to (2,3) quick / (3,3) thorough; random runs W<=4, N<=40. Trusted: SeqCst atomics and std mpsc linearizable, hooks only at schedule points (a race inside one segment is only reachable by the free-running runs), 1.5 s no-progress time-out (re-run once).",
         technique="TLA+ spec of the ticket/turn/channel protocol model-checked with TLC; state-graph edge cover replayed as controlled thread schedules; recorded executions validated by TLC trace specs",
         ref="6 C05"),
+    "C07": dict(
+        text="TLC explores MultiGen.tla (cursor, finished flags, the two steps of the loop inside next()) for all source-length vectors up to 3-4 sources x lengths 0..3 and the three strategies incl. every weighted choice; invariants: per-source order and tags, exactly-once at the end, sequential = concatenation, interleaved = round robin over sources that still have items; termination under fairness; negative control: the pinned commit's re-selection hangs. Binding: every enumerated vector and random longer vectors are iterated to the end on the real generator under a watchdog, twice per seed, and each recorded iteration is validated by Trace_MultiGen against the spec's expected sequence (deterministic strategies) or membership predicates and seed reproducibility (weighted).",
+        note="Bounded: <=4 sources, lengths <=3 exhaustively; random <=6 sources, lengths <=9. In-memory sources (the jsonl reader is exercised by C08). Hang = next() not returning within 5 s.",
+        technique="TLA+ state machine of the generator model-checked with TLC (incl. negative control); TLC-enumerated configurations replayed on the real generator; recorded iterations validated by a TLC trace spec",
+        ref="6 C07"),
     "C09": dict(
         text="TLC explores Pipe.tla with the consumer's Drop enabled at every point (invariants: look-ahead <= channel capacity + workers independent of the upstream length, at most one further pull per worker after the drop; liveness: every worker exits after a drop) and with a panicking item (with the process-exiting hook the run ends; without it TLC finds the wedged consumer - negative control), and Buffered.tla for capacities 0..2 (negative control: a producer that ignores the failed send violates the bound). Binding: edge covers of both state graphs are replayed on the real Pipe (hooks) and the real Buffered (its upstream iterator is the schedule point); random controlled schedules with drops, free-running abandon runs incl. an effectively unbounded upstream, and child processes with a panicking item are recorded and judged by the TLC monitor Trace_PipeObs; Pipe runs are also validated against the mechanism (Trace_Pipe).",
         note="Bounded: graphs W<=2,N<=2 (quick) / W<=3,N<=3 (thorough), Buffered N<=3/5, cap 0..2; random W<=4, caps {0,1,2,3,16}. Thread exit is observed via the drop of the upstream iterator; hang = no exit signal within 1.5-10 s for microsecond work (timing-only verdicts re-run once). std mpsc semantics trusted.",
@@ -74,7 +79,7 @@ def main():
     print("MANIFEST.json: %d checks, %d not_applicable" % (len(checks), len(na)))
 
 
-HOOK_COMMITS = ["3613811"]
+HOOK_COMMITS = ["3613811", "f304319"]
 
 if __name__ == "__main__":
     main()
